@@ -4,19 +4,17 @@ From Coq Require Import ZArith Bool.
 From SNT Require Import Surface.Bounds Surface.BoundsProofs.
 Local Open Scope Z_scope.
 
-(* every axis length representable as i64 (no allocation of sized elements can be longer), every
-   selector form, every integer type, every bound value of that type.  Beyond i64::MAX (possible only
-   for surfaces of zero-sized elements) the statement is false: C08_beyond_i64max_refuted. *)
-Theorem C08_python_slice_upto_i64max : forall (t : ity) (s : sel) (n : Z),
-  0 <= n <= i64_max -> sel_in t s = true ->
+(* every axis length (any usize value, also beyond i64::MAX), every selector form, every integer
+   type, every bound value of that type *)
+Theorem C08_python_slice : forall (t : ity) (s : sel) (n : Z),
+  0 <= n <= usize_max -> sel_in t s = true ->
   view_bounds t s n = py_slice n s.
-Proof. exact view_bounds_py. Qed.
+Proof. exact view_bounds_py_usize. Qed.
 
-(* known finding (class axis-beyond-i64max): range_bounds works in i64 and saturates the axis length,
-   so on an axis longer than i64::MAX the full range `..` stops at i64::MAX *)
-Theorem C08_beyond_i64max_refuted : exists (t : ity) (s : sel) (n : Z),
-  0 <= n <= 18446744073709551615 /\ sel_in t s = true /\ view_bounds t s n <> py_slice n s.
-Proof. exists Usize, Full, 18446744073709551615. repeat split; try discriminate. Qed.
+(* hence, about the code's model itself: the answer is absent or a non-empty interval inside the axis *)
+Theorem C08_range_model : forall (t : ity) (s : sel) (n a b : Z),
+  0 <= n <= usize_max -> sel_in t s = true -> view_bounds t s n = Some (a, b) -> 0 <= a /\ a < b /\ b <= n.
+Proof. exact view_bounds_range. Qed.
 
 (* the specification, characterised element by element: py_slice n s is the interval of exactly the
    indices k that the selector selects in Python's reading (negative bounds count from the end,
@@ -36,13 +34,13 @@ Theorem C08_index_absent : forall n i : Z,
 Proof. exact py_slice_none_idx. Qed.
 
 (* the result does not depend on the integer type the selector is written in *)
-Theorem C08_type_independent_upto_i64max : forall (t1 t2 : ity) (s : sel) (n : Z),
-  0 <= n <= i64_max -> sel_in t1 s = true -> sel_in t2 s = true ->
+Theorem C08_type_independent : forall (t1 t2 : ity) (s : sel) (n : Z),
+  0 <= n <= usize_max -> sel_in t1 s = true -> sel_in t2 s = true ->
   view_bounds t1 s n = view_bounds t2 s n.
-Proof. exact view_bounds_type_independent. Qed.
+Proof. exact view_bounds_type_independent_usize. Qed.
 
-Check C08_python_slice_upto_i64max : forall (t : ity) (s : sel) (n : Z),
-  0 <= n <= i64_max -> sel_in t s = true -> view_bounds t s n = py_slice n s.
+Check C08_python_slice : forall (t : ity) (s : sel) (n : Z),
+  0 <= n <= usize_max -> sel_in t s = true -> view_bounds t s n = py_slice n s.
 
 (* non-vacuity and the former failing inputs, now as theorems about the model *)
 Example C08_examples :
@@ -54,5 +52,10 @@ Example C08_examples :
   view_bounds I8 (Idx 0) 128 = Some (0, 1) /\
   view_bounds I32 (Rng (-5) 8) 10 = Some (5, 8) /\
   view_bounds I32 (ToI (-1)) 10 = Some (0, 10) /\
-  sel_in I8 (Idx 100) = true.
+  sel_in I8 (Idx 100) = true /\
+  (* axes longer than i64::MAX (the inputs of the former finding axis-beyond-i64max) *)
+  view_bounds Usize Full 18446744073709551615 = Some (0, 18446744073709551615) /\
+  view_bounds I64 (Idx 9223372036854775807) 18446744073709551615 = Some (9223372036854775807, 9223372036854775808) /\
+  view_bounds U64 (Idx 9223372036854775807) 18446744073709551615 = Some (9223372036854775807, 9223372036854775808) /\
+  view_bounds I64 (Idx (-1)) 18446744073709551615 = Some (18446744073709551614, 18446744073709551615).
 Proof. vm_compute. repeat split; reflexivity. Qed.
